@@ -216,6 +216,14 @@ def generate_level(rng, run_seed):
 
 
 def generate(run_seed, tier):
+    case = _generate(run_seed, tier)
+    vr = stream(run_seed, "voter-sets")
+    if vr.random() < 0.25:
+        attach_voter_sets(case, vr)
+    return case
+
+
+def _generate(run_seed, tier):
     rng = stream(run_seed, "gen")
     u = rng.random()
     if u >= 0.94:
@@ -274,6 +282,14 @@ def coalitions(jp, q, m):
             need = min(k, size, m)
             out.append((list(S), W, k, need))
     return out
+
+
+def attach_voter_sets(case, rng):
+    """ballot metadata the count must ignore: voter sets whose size has nothing to do with the ballot's weight"""
+    for i, b in enumerate(case["profile"]["ballots"]):
+        if rng.random() < 0.6:
+            b["vs"] = ["v%d_%d" % (i, j) for j in range(rng.randint(1, 3))]
+    return case
 
 
 def execute(case, trace=False):
